@@ -401,7 +401,11 @@ func c09Case(c *core.Ctx) *core.Result {
 	okEdits := 0
 	nOps := r.Range(3, tierN(c.Tier, 30, 80))
 	// index generator: inside, at and beyond the bounds, negative
+	scenario := c.Case%3 == 1 && origin == "created"
 	idx := func(n int) int {
+		if scenario && n > 0 && r.Chance(9, 10) {
+			return r.Intn(n)
+		}
 		switch r.Intn(10) {
 		case 0:
 			return -1
@@ -448,7 +452,13 @@ func c09Case(c *core.Ctx) *core.Result {
 		exact := false      // exp is a full prediction
 		structural := false // op changes structure (invariants are checked after success)
 		var call func()
-		switch r.Intn(20) {
+		opk := r.Intn(20)
+		if scenario {
+			// merge-heavy history: merges of all three kinds with arguments inside the table, and row edits aimed at the rows where
+			// vertical merges start (stacked regions of different width, deleted start rows, rows inserted into a region)
+			opk = []int{13, 14, 15, 16, 16, 16, 3, 3, 4, 0, 17, 2}[r.Intn(12)]
+		}
+		switch opk {
 		case 0, 1:
 			pos := idx(R + 1)
 			data := strs(r.Range(0, C0+1))
@@ -487,6 +497,21 @@ func c09Case(c *core.Ctx) *core.Result {
 			}
 		case 3:
 			i := idx(R)
+			if scenario && r.Bool() {
+				// aim at a row in which a vertical merge starts
+				var starts []int
+				for ri := range before.Rows {
+					for _, pc := range before.Rows[ri] {
+						if pc.VM == "restart" {
+							starts = append(starts, ri)
+							break
+						}
+					}
+				}
+				if len(starts) > 0 {
+					i = starts[r.Intn(len(starts))]
+				}
+			}
 			op = "DeleteRow"
 			structural = true
 			call = func() { err = t.DeleteRow(i) }
